@@ -101,6 +101,30 @@ def rel_diff(A, B):
     return float(np.abs(A - B).max() / s)
 
 
+def block_rel_diff(A, B, num, row0=0):
+    """like rel_diff, but every field block (u-u, u-v, ..., w-w) is judged on ITS OWN scale: in a thin panel the bending block is
+    (h/a)^2 ~ 1e-8 times the membrane block, so a comparison relative to the largest entry of the whole matrix cannot see it at all.
+    Scale of block (a, b): max(|B_ab|, 1e-4 sqrt(|B_aa| |B_bb|)) (the floor keeps blocks that are zero up to rounding quiet).
+    Rows/columns outside the panel's own range (padding) are compared on the global scale."""
+    if num == 1:
+        return rel_diff(A, B)
+    n = A.shape[0]
+    idx = [np.array([i for i in range(row0, n) if (i - row0) % num == a_]) for a_ in range(num)]
+    S = [[max(np.abs(A[np.ix_(idx[a_], idx[b_])]).max(), np.abs(B[np.ix_(idx[a_], idx[b_])]).max()) if len(idx[a_]) and len(idx[b_]) else 0.
+          for b_ in range(num)] for a_ in range(num)]
+    worst = 0.
+    for a_ in range(num):
+        for b_ in range(num):
+            if not len(idx[a_]) or not len(idx[b_]):
+                continue
+            sc = max(S[a_][b_], 1e-4 * (S[a_][a_] * S[b_][b_]) ** 0.5, 1e-300)
+            worst = max(worst, float(np.abs(A[np.ix_(idx[a_], idx[b_])] - B[np.ix_(idx[a_], idx[b_])]).max() / sc))
+    if row0:
+        g = max(np.abs(A).max(), np.abs(B).max(), 1e-300)
+        worst = max(worst, float(np.abs(A[:row0] - B[:row0]).max() / g), float(np.abs(A[:, :row0] - B[:, :row0]).max() / g))
+    return worst
+
+
 # ----------------------------------------------------------------------------- redefinition stream (shared by C03, C04, C19)
 REDEF_EDITS = ['offset', 'geometry', 'alphadeg', 'mu', 'flags', 'stack', 'plyt', 'loads']
 
